@@ -134,7 +134,20 @@ pub fn gen_c10(tier: &str, seed: u64) -> Vec<Vec<String>> {
             }
             let mut t = 1_704_067_200i64; // 2024-01-01 00:00:00
             let mut seq = 0;
-            for _ in 0..r.range(3, 20) {
+            // in a quarter of the histories the log directory itself vanishes for a while
+            let nops = r.range(3, 20);
+            let gone_at = if r.chance(1, 4) { Some(r.below(nops)) } else { None };
+            for i in 0..nops {
+                if gone_at == Some(i) {
+                    c.push("RMDIR".into());
+                    for _ in 0..r.range(1, 4) {
+                        if r.chance(1, 5) { c.push(format!("ROT {} -", pack(t))); }
+                        c.push(format!("W {} {} -", hex(&record(seq, r.range(1, 40))), pack(t)));
+                        seq += 1;
+                        t += *r.pick(&[0i64, 1, 61]);
+                    }
+                    c.push("MKDIR".into());
+                }
                 match r.below(10) {
                     0 => c.push(format!("ROT {} -", pack(t))),
                     1 => { c.push("SHUT".into()); c.push(format!("RESTART {rot} {} _ 0 {}", r.chance(1, 2) as u8, has_suffix as u8)); }
